@@ -342,9 +342,14 @@ pub trait BinRead {
     }
 
     fn read_byte_vec(&mut self, len: usize) -> Result<Vec<u8>, Self::Err> {
-        let mut buf = vec![0; len];
-        self.read_exact(&mut buf)?;
-        Ok(buf)
+        // `len` usually comes straight from the file, so don't allocate it up front;
+        // a bogus length should produce an EOF error, not an allocation failure.
+        let mut buf = vec![];
+        match self._bin_read_reader().take(len as u64).read_to_end(&mut buf) {
+            Ok(n) if n == len => Ok(buf),
+            Ok(_) => Err(self._bin_read_io_error(io::Error::new(io::ErrorKind::UnexpectedEof, "failed to fill whole buffer"))),
+            Err(e) => Err(self._bin_read_io_error(e)),
+        }
     }
 
     fn read_exact(&mut self, out: &mut [u8]) -> Result<(), Self::Err> {
